@@ -2,38 +2,48 @@
    hasattr / getattr / getattr-with-default and whose values are tested with `is None`, truthiness and
    numeric comparison.  Nothing else of an object is observable to pyais/filter.py.
 
-   An attribute is absent (not in the map), present-but-None, a number (int, bool, IntEnum, float, float enum:
-   the exact value as a rational) or some other object (str, bytes; only its truthiness is kept).
+   A value is None, a number (int, bool, IntEnum, float, float enum: the exact value as a rational) or some
+   other object (str, bytes, tuple; only its truthiness is kept).
+
+   READING an attribute is not a pure lookup.  A name the object has is either a stored field (reading returns the
+   stored value) or a COMPUTED attribute -- a Python property such as `is_sotdma`, `is_itdma`,
+   `communication_state_raw` of CommunicationStateMixin -- whose getter runs code on every read and either returns a
+   value or raises (TypeError when `radio` is None on a truncated type 9/18/26 report).  The map therefore records,
+   per name, the OUTCOME of evaluating `msg.<name>`: [Ok v] or [Raise e].  A name that is not in the map is absent
+   (evaluating it raises AttributeError; a getter that itself raises AttributeError is indistinguishable from that
+   for hasattr / getattr, and is treated the same way below through [try_except]).
    `msg_type` is kept as a field of its own (it is an int on every decoded message). *)
 From Coq Require Import ZArith List Bool String.
 Require Import Prim.Exn Prim.Rat.
 Import ListNotations.
 Open Scope Z_scope.
+Open Scope exn_scope.
 
 Inductive aval :=
 | ANone
 | ANum (q : ratio)
 | AOther (truthy : bool).
 
-Record pymsg := mkPyMsg { pm_type : Z; pm_attrs : list (string * aval) }.
+Record pymsg := mkPyMsg { pm_type : Z; pm_attrs : list (string * M aval) }.
 
-Fixpoint py_attr_lookup (l : list (string * aval)) (name : string) : option aval :=
+Fixpoint py_attr_lookup (l : list (string * M aval)) (name : string) : option (M aval) :=
   match l with
   | [] => None
   | (k, v) :: r => if String.eqb name k then Some v else py_attr_lookup r name
   end.
 
-(* hasattr(msg, name) *)
-Definition py_hasattr (m : pymsg) (name : string) : bool :=
-  match py_attr_lookup (pm_attrs m) name with Some _ => true | None => false end.
-
-(* msg.<name> : AttributeError when absent *)
+(* msg.<name>  /  getattr(msg, name) : the stored value, the outcome of the getter, AttributeError when absent *)
 Definition py_getattr (m : pymsg) (name : string) : M aval :=
-  match py_attr_lookup (pm_attrs m) name with Some v => Ok v | None => Raise (Py AttributeError) end.
+  match py_attr_lookup (pm_attrs m) name with Some r => r | None => Raise (Py AttributeError) end.
 
-(* getattr(msg, name, default) *)
-Definition py_getattr_d (m : pymsg) (name : string) (default : aval) : aval :=
-  match py_attr_lookup (pm_attrs m) name with Some v => v | None => default end.
+(* hasattr(msg, name): evaluates getattr(msg, name); AttributeError -> False, any other exception propagates *)
+Definition py_hasattr (m : pymsg) (name : string) : M bool :=
+  try_except (_ <- py_getattr m name ;; Ok true) [HPy AttributeError] (fun _ => Ok false).
+
+(* getattr(msg, name, default): evaluates getattr(msg, name); AttributeError -> default, any other exception
+   propagates (the three-argument form absorbs AttributeError only) *)
+Definition py_getattr_d (m : pymsg) (name : string) (default : aval) : M aval :=
+  try_except (py_getattr m name) [HPy AttributeError] (fun _ => Ok default).
 
 (* v is not None *)
 Definition py_is_not_none (v : aval) : bool := match v with ANone => false | _ => true end.
@@ -60,3 +70,25 @@ Definition py_lt (a b : aval) : M bool :=
    trigonometry is not modelled (see Model/Filter.v, [dist]). *)
 Definition py_as_real (v : aval) : M ratio :=
   match v with ANum q => Ok q | _ => Raise (Py TypeError) end.
+
+(* ---- the shape of a DECODED message (boolean; evaluated by the harness, through the extracted code, on every
+   really decoded message it generates -- an internal error of the check if one falls outside) --------------- *)
+
+(* lat / lon, where the message has them, are stored fields holding None or a number: never a str, never a
+   computed attribute that raises *)
+Definition py_coord_ok (m : pymsg) (name : string) : bool :=
+  match py_attr_lookup (pm_attrs m) name with
+  | None | Some (Ok ANone) | Some (Ok (ANum _)) => true
+  | Some (Ok (AOther _)) | Some (Raise _) => false
+  end.
+Definition coords_numeric (m : pymsg) : bool := py_coord_ok m "lat" && py_coord_ok m "lon".
+
+(* what a computed attribute may do: reading any attribute of the message returns a value or raises TypeError or
+   ValueError (or a subclass) -- the two ways a getter fails when a field it computes from is None *)
+Definition py_read_ok (r : M aval) : bool :=
+  match r with Ok _ => true | Raise e => catches [HPy TypeError; HPy ValueError] e end.
+Definition attr_reads_ok (m : pymsg) : bool := forallb (fun kv => py_read_ok (snd kv)) (pm_attrs m).
+
+(* the stronger shape under which the UNREPAIRED NoneFilter was total: no read raises at all *)
+Definition py_read_total (r : M aval) : bool := match r with Ok _ => true | Raise _ => false end.
+Definition attr_reads_total (m : pymsg) : bool := forallb (fun kv => py_read_total (snd kv)) (pm_attrs m).
